@@ -445,6 +445,54 @@ class AbsArr(object):
         raise Unsupported("view of abstract array")
 
 
+class NdArr(object):
+    """a 1-d numpy array handed to the writer: dtype (real numpy dtype), length (symbolic or concrete),
+    either opaque contents (payload token) or a concrete list of symbolic items"""
+
+    def __init__(self, dtype, length, payload=None, items=None, ndim=1):
+        self.dtype_ = np.dtype(dtype)
+        self.length = length if items is None else len(items)
+        self.payload = payload
+        self.items = items
+        self.ndim = ndim
+
+    @property
+    def dtype(self):
+        return self.dtype_
+
+    def sym_len(self):
+        return self.length
+
+    def __iter__(self):
+        if self.items is None:
+            raise Unsupported("iterating an opaque array")
+        return iter(self.items)
+
+    def nbytes_part(self):
+        M.trusted("ndarray.tofile / tobytes write exactly len(a) * a.dtype.itemsize bytes: the elements in order")
+        return M.WBytes([('opaque', 'array-data', self.length * self.dtype_.itemsize, self)])
+
+    def tofile(self, file):
+        file.write(self.nbytes_part())
+
+    def tobytes(self):
+        return self.nbytes_part()
+
+
+def _ndarr_getitem(interp, a, k):
+    from .interp import ProgExc
+    if a.items is not None:
+        try:
+            return a.items[k]
+        except IndexError:
+            raise ProgExc(IndexError, "index")
+    if isinstance(k, int):
+        if interp.truth(a.length > k if k >= 0 else a.length >= -k):
+            return ("element", a, k)
+        raise ProgExc(IndexError, "index")
+    raise Unsupported("array index")
+
+
 class FieldView(object):
     """arr['field'] of a structured abstract array"""
 
@@ -544,6 +592,8 @@ def install(interp, m):
     m[("getitem", FileArr)] = _filearr_getitem
     m[("getitem", ListArr)] = _listarr_getitem
     m[("getitem", TsArr)] = _tsarr_getitem
+    m[("getitem", NdArr)] = _ndarr_getitem
+    m[("isinstance", NdArr)] = lambda interp, v, c: c in (np.ndarray, object)
     m[("setitem", AbsArr)] = _absarr_setitem
     m[("setitem", FieldView)] = _fieldview_setitem
     m[("instantiate", np.ndarray)] = _instantiate_ndarray_subclass
